@@ -64,7 +64,7 @@ def chk(acc, name: str, case, mk_obj, ref_bytes: bytes, unpack, eq=None) -> None
 
 
 def shards(tier: str, seed: int):
-    return [["kdfparams"], ["dhparams"], ["dhkey"], ["eckey"], ["keyid"], ["envelope", 0], ["envelope", 1], ["envelope", 2], ["envelope", 3], ["getkey"], ["getkey_resp"]]
+    return [["kdfparams"], ["dhparams"], ["dhkey"], ["eckey"], ["keyid"], ["envelope", 0], ["envelope", 1], ["envelope", 2], ["envelope", 3], ["getkey"], ["getkey_resp"], ["getkey-wire"]]
 
 
 def env_base() -> dict:
@@ -93,6 +93,54 @@ def run_shard(shard, tier, seed, acc) -> None:
         for s in STRS + ["SHA1", "SHA256", "SHA384", "SHA512"]:
             chk(acc, "KDFParameters", [s], lambda s=s: Gm.KDFParameters(s), gkdi.pack_kdf_params(s), Gm.KDFParameters.unpack)
         acc.sample({"KDFParameters": "SHA512", "bytes": gkdi.pack_kdf_params("SHA512").hex()})
+    elif what == "getkey-wire":
+        # the GetKey stub as the CLIENT puts it on the wire (decoded by the reference DC) for blobs at positions that include index 0 at every
+        # level, and for protect (-1, -1, -1): exactly the reference NDR64 encoding of (target SD, root key id, L0, L1, L2)
+        import dpapi_ng
+
+        from env import refdc, secctx, transport
+        from env import seams as seams_
+        from mc import vloop
+        from ref import cms as cms_, dtyp as dtyp_, ndr64 as ndr64_
+
+        d = seams_.Drbg(("C11wire", seed))
+        rk = seams_.make_root(d, "SHA256")
+        n = 0
+        for sid in ("S-1-5-21-1-2-3-1104", "S-1-1-0"):
+            sd = dtyp_.target_sd(dtyp_.parse_sid_string(sid))
+            for l0 in (361, 0, 1):
+                for pos in ((0, 0), (0, 5), (5, 0), (31, 31), (3, 5), (31, 0), (0, 31), (1, 1)):
+                    blob = cms_.ref_encrypt(rk, sid, b"wire", (l0,) + pos, cek=d.bytes(32), gcm_nonce_=d.bytes(12), key_nonce=d.bytes(32))
+                    for api in ("sync", "async"):
+                        for op in ("unprotect", "protect-named", "protect"):
+                            if op != "unprotect" and (l0 != 361 or pos not in ((0, 0), (3, 5))):
+                                continue
+                            dc = refdc.DC([rk], now=(400, 3, 7))
+                            kw = dict(server="dc", username="u", password="p", auth_protocol="ntlm", cache=dpapi_ng.KeyCache())
+                            case = ["getkey-wire", sid, l0, list(pos), api, op]
+                            with seams_.clock((400 * 1024 + 3 * 32 + 7) * gkdi.B + 1), transport.network(dc), secctx.scripted_client(lambda u, p, **k: secctx.ScriptedContext([b"C1"], 16)):
+                                try:
+                                    if op == "unprotect":
+                                        r = dpapi_ng.ncrypt_unprotect_secret(blob, **kw) if api == "sync" else vloop.run(dpapi_ng.async_ncrypt_unprotect_secret(blob, **kw))
+                                        want = ndr64_.getkey_request(sd, rk.rkid, l0, pos[0], pos[1])
+                                    else:
+                                        if op == "protect-named":
+                                            kw["root_key_identifier"] = rk.rkid
+                                        r = dpapi_ng.ncrypt_protect_secret(b"wire", sid, **kw) if api == "sync" else vloop.run(dpapi_ng.async_ncrypt_protect_secret(b"wire", sid, **kw))
+                                        want = ndr64_.getkey_request(sd, rk.rkid if op == "protect-named" else None, -1, -1, -1)
+                                except Exception as e:  # noqa: BLE001
+                                    acc.violate(f"getkey-wire.exc.{type(e).__name__}", case, {"exc": repr(e)[:200]})
+                                    n += 1
+                                    continue
+                            reqs = [e for e in dc.transcript if e.get("dir") == "c2s" and e.get("kind") == "isd" and e.get("what") == "request"]
+                            n += 1
+                            acc.nt(tuple(map(str, case)))
+                            if len(reqs) != 1 or reqs[0].get("stub") != want:
+                                acc.violate("getkey-wire.stub", case, {"requests": len(reqs), "got": (reqs[0].get("stub") or b"").hex()[-80:] if reqs else None, "decoded": repr(reqs[0].get("getkey"))[-120:] if reqs else None, "expected_tail": want.hex()[-80:]})
+                            else:
+                                acc.outcome("getkey-wire-ok")
+        acc.ev(n)
+        acc.sample({"GetKey on the wire": "blobs at L0 in {361, 0, 1} x 8 (L1, L2) positions incl. 0 at every level; protect with / without root key id", "apis": ["sync", "async"]})
     elif what == "dhparams":
         for kl in (1, 2, 32, 48, 66, 256):
             for p in ints_for(kl):
